@@ -29,6 +29,10 @@ type c02Plan struct {
 	Twin bool `json:"twin,omitempty"`
 	// Logical: the response arrives on a logical channel (whose setup was acknowledged by a header-only packet).
 	Logical bool `json:"logical,omitempty"`
+	// Slow: offsets in the server's byte stream after which the server is silent for a second. The client's read
+	// timeout is two seconds in these runs: a packet whose bytes take longer than that to arrive, without any
+	// single silence reaching the timeout, must still be received.
+	Slow []int `json:"slow,omitempty"`
 }
 
 // c02Packets builds the packets of the faulted delivery.
@@ -260,6 +264,24 @@ func (c02) Gen(r *Rand, idx int, tier string) interface{} {
 	p.Twin = r.Pct(15)
 	p.Logical = r.Pct(25)
 	p.DebugLog = r.Pct(20)
+	if r.Pct(8) {
+		total := 0
+		for _, x := range c02Packets(body, p) {
+			total += len(x)
+		}
+		if total > 12 {
+			// a run of pauses close together (likely inside one packet) plus a few anywhere
+			at := 9 + r.Intn(total-10)
+			for k := 0; k < 3+r.Intn(3) && at < total; k++ {
+				p.Slow = append(p.Slow, at)
+				at += 1 + r.Intn(3)
+			}
+			for k := 0; k < r.Intn(3); k++ {
+				p.Slow = append(p.Slow, 1+r.Intn(total-1))
+			}
+			sort.Ints(p.Slow)
+		}
+	}
 	return p
 }
 
@@ -323,6 +345,11 @@ func (c02) Shrink(plan interface{}) []interface{} {
 		q.Twin = false
 		out = append(out, q)
 	}
+	if len(p.Slow) > 0 {
+		q := cp()
+		q.Slow = nil
+		out = append(out, q)
+	}
 	if p.Logical {
 		q := cp()
 		q.Logical = false
@@ -360,9 +387,13 @@ func (c02) Run(plan interface{}, schedSeed uint64, replay []simrt.Choice, lenien
 		respClient{QueueSize: 100, ReadTimeoutS: 50})
 	cfg := p.Knobs.Config(schedSeed)
 	cfg.Replay, cfg.Lenient, cfg.KeepLog = replay, lenient, keepLog
+	readTimeout := 50
+	if len(p.Slow) > 0 {
+		readTimeout = 2
+	}
 	got := runResp(cfg,
-		respDelivery{Packets: c02Packets(body, p), TermAt: -1, Async: p.Async},
-		respClient{QueueSize: p.QueueSize, ReadTimeoutS: 50, DebugLog: p.DebugLog, ReadSizes: p.ReadSizes, Twin: p.Twin, Logical: p.Logical})
+		respDelivery{Packets: c02Packets(body, p), TermAt: -1, Async: p.Async, PauseAfterByte: p.Slow},
+		respClient{QueueSize: p.QueueSize, ReadTimeoutS: readTimeout, DebugLog: p.DebugLog, ReadSizes: p.ReadSizes, Twin: p.Twin, Logical: p.Logical})
 	out := got.Out
 	StdOutcome(v, base.Out)
 	StdOutcome(v, out)
@@ -386,6 +417,23 @@ func (c02) Run(plan interface{}, schedSeed uint64, replay []simrt.Choice, lenien
 	}
 	if got.ConnErr != "" || got.SendErr != "" {
 		v.Violate("client-error", "client-setup-error", "connect/send failed: %s %s", got.ConnErr, got.SendErr)
+	}
+	if len(p.Slow) > 0 {
+		// a packet with three or more silences inside takes longer than the read timeout
+		off := 0
+		for _, x := range c02Packets(body, p) {
+			n := 0
+			for _, at := range p.Slow {
+				if at > off && at < off+len(x) {
+					n++
+				}
+			}
+			if n >= 3 {
+				v.Probe("packet-slower-than-read-timeout")
+				break
+			}
+			off += len(x)
+		}
 	}
 	if p.Twin {
 		v.Probe("twin-connection")
